@@ -804,6 +804,15 @@ class Dataset(AutoSerialize):
         if not isinstance(index, tuple):
             index = (index,)
 
+        # NumPy's "advanced indices separated" rule is syntactic: an Ellipsis written between
+        # two of them separates them even when it expands to no axis at all
+        raw_adv = [
+            i
+            for i, idx in enumerate(index)
+            if isinstance(idx, (int, np.integer, list, np.ndarray))
+        ]
+        adv_separated = len(raw_adv) > 1 and raw_adv[-1] - raw_adv[0] + 1 != len(raw_adv)
+
         # Expand Ellipsis
         if Ellipsis in index:
             ellipsis_pos = index.index(Ellipsis)
@@ -824,7 +833,7 @@ class Dataset(AutoSerialize):
             if isinstance(idx, (int, np.integer, list, np.ndarray))
         ]
         arr_axes = [i for i in adv if not isinstance(index[i], (int, np.integer))]
-        if arr_axes and len(adv) > 1 and adv[-1] - adv[0] + 1 != len(adv):
+        if arr_axes and len(adv) > 1 and (adv_separated or adv[-1] - adv[0] + 1 != len(adv)):
             kept_axes = arr_axes + [i for i in kept_axes if i not in arr_axes]
 
         # Slice/reduce metadata accordingly
